@@ -81,6 +81,9 @@ Definition lsbmsb32 (v : Z) : bytes := le_enc 4 v ++ be_enc 4 v.
 (* appendString(s, fixedLen, padding): s then padding bytes up to fixedLen (Go panics when s is longer) *)
 Definition pad_to (s : bytes) (n : Z) (p : Z) : bytes := s ++ repeatz p (n - zlen s).
 Definition fit (s : bytes) (n : Z) : bytes := firstn (Z.to_nat n) s.
+(* a field whose width the Go type fixes (a [7]byte recording time, the %04d%02d.. timestamp, a [N]byte array):
+   exactly n bytes whatever the model is given *)
+Definition fitn (n : nat) (l : bytes) : bytes := firstn n (l ++ repeat 0 n).
 
 (* ---------- directory records ---------- *)
 Record dentry := { de_loc : Z; de_len : Z; de_time : bytes; de_flags : Z; de_id : bytes }.
@@ -88,7 +91,7 @@ Record dentry := { de_loc : Z; de_len : Z; de_time : bytes; de_flags : Z; de_id 
 Definition de_size (e : dentry) : Z := 33 + zlen (de_id e) + (zlen (de_id e) + 1) mod 2.
 
 Definition de_encode (e : dentry) : bytes :=
-  [de_size e mod 256; 0] ++ lsbmsb32 (de_loc e mod 2 ^ 32) ++ lsbmsb32 (de_len e mod 2 ^ 32) ++ de_time e
+  [de_size e mod 256; 0] ++ lsbmsb32 (de_loc e mod 2 ^ 32) ++ lsbmsb32 (de_len e mod 2 ^ 32) ++ fitn 7 (de_time e)
   ++ [de_flags e; 0; 0] ++ lsbmsb16 1 ++ [zlen (de_id e) mod 256] ++ de_id e
   ++ (if (zlen (de_id e) + 1) mod 2 =? 1 then [0] else []).
 
@@ -119,8 +122,8 @@ Fixpoint scan_items (items : list snode) (path : list bytes) (lba : Z)
   match items with
   | [] => ([], [], lba)
   | SFile n sz t :: r =>
-      let '(fs, ds, lba') := scan_items r path (lba + sectors sz) in
-      ({| df_name := n; df_size := sz; df_lba := lba; df_time := t |} :: fs, ds, lba')
+      let '(fs, ds, lba') := scan_items r path (lba + sectors (Z.max 0 sz)) in   (* sizeBytes is unsigned *)
+      ({| df_name := n; df_size := Z.max 0 sz; df_lba := lba; df_time := t |} :: fs, ds, lba')
   | SDir n t its :: r =>
       let '(fs, ds, lba') := scan_items r path lba in
       (fs, (path ++ [n], SDir n t its) :: ds, lba')
@@ -284,7 +287,7 @@ Definition vd_body (joliet : bool) (volname : bytes) (space ptsize ptl ptm : Z) 
   ++ pad_to [] 128 32 ++ pad_to [] 128 32
   ++ pad_to [112;115;51;110;101;116;115;114;118] 128 32                              (* "ps3netsrv" *)
   ++ pad_to [] 37 32 ++ pad_to [] 37 32 ++ pad_to [] 37 32
-  ++ now ++ now ++ zero_ts ++ zero_ts
+  ++ fitn 17 now ++ fitn 17 now ++ zero_ts ++ zero_ts
   ++ [1; 0] ++ zeros 512.
 
 Definition vd_header (typ ver : Z) : bytes := [typ] ++ standard_identifier ++ [ver].
@@ -302,7 +305,56 @@ Definition ps3_sectors (space : Z) (game_code rnd : bytes) : bytes :=
   pad_to (be_enc 4 1 ++ zeros 4 ++ be_enc 4 0 ++ be_enc 4 ((space - 1) mod 2 ^ 32)) sector_size 0
   ++ pad_to (pad_to console_id 16 32
              ++ pad_to (firstn 4 game_code ++ [45] ++ skipn 4 game_code) 32 32
-             ++ zeros 16 ++ rnd) sector_size 0.
+             ++ zeros 16 ++ fitn 448 rnd) sector_size 0.           (* Info [0x1B0] and Hash [0x10] from crypto/rand *)
+
+(* writeFSStructures: the metadata area, given the relocated tables and directories *)
+Definition sys_area (ps3 : bool) (space : Z) (game_code rnd : bytes) : bytes :=
+  if ps3 then ps3_sectors space game_code rnd ++ zeros ((sectors system_area_size - 2) * sector_size)
+  else zeros system_area_size.
+
+Definition root_record (b : built) : bytes := match b with (dot :: _) :: _ => de_encode dot | _ => [] end.
+
+Definition dirs_bytes (b : built) : bytes := concat (map (fun es => pad_sector (entries_encode es 0)) b).
+
+Definition fsbuf_of (ps3 : bool) (volname game_code now rnd : bytes) (space : Z)
+    (pt ptj : list ptentry) (f_iso f_jol : built) (ptl ptm ptjl ptjm : Z) : bytes :=
+  sys_area ps3 space game_code rnd
+  ++ vd_sector volume_type_primary 1 (vd_body false volname space (pt_total pt) ptl ptm (root_record f_iso) now)
+  ++ vd_sector volume_type_supplementary 1 (vd_body true volname space (pt_total ptj) ptjl ptjm (root_record f_jol) now)
+  ++ vd_sector volume_type_terminator 0 []
+  ++ zeros sector_size
+  ++ pad_sector (concat (map (pt_encode true) pt)) ++ pad_sector (concat (map (pt_encode false) pt))
+  ++ pad_sector (concat (map (pt_encode true) ptj)) ++ pad_sector (concat (map (pt_encode false) ptj))
+  ++ dirs_bytes f_iso ++ dirs_bytes f_jol.
+
+Definition reloc_pt (base : Z) (pt : list ptentry) : list ptentry :=
+  map (fun e => {| pt_loc := pt_loc e + base; pt_parent := pt_parent e; pt_id := pt_id e |}) pt.
+
+Definition pad_sectors_for (volume : Z) : Z :=
+  base_pad_sectors + (if 0 <? volume mod base_pad_sectors then base_pad_sectors - volume mod base_pad_sectors else 0).
+
+(* buildFSStructures after the directories are built: layout numbers, relocation, the bytes *)
+Definition assemble (ds : list ditem) (files_sectors : Z) (b_iso b_jol : built)
+    (volname : bytes) (ps3 : bool) (game_code now rnd : bytes) : built_image :=
+  let pt := make_path_table ds false ds b_iso 0 in
+  let ptj := make_path_table ds true ds b_jol 0 in
+  let iso_lba := sectors system_area_size + volume_descriptors_count + 1 + sectors (pt_total pt) * 2 + sectors (pt_total ptj) * 2 in
+  let jol_lba := iso_lba + sectors (built_size b_iso) in
+  let files_lba := jol_lba + sectors (built_size b_jol) in
+  let volume := files_lba + files_sectors in
+  let pad := pad_sectors_for volume in
+  let space := volume + pad in
+  let desc_lba := sectors system_area_size in
+  let ptl := desc_lba + volume_descriptors_count + 1 in
+  let ptm := ptl + sectors (pt_total pt) in
+  let ptjl := ptm + sectors (pt_total pt) in
+  let ptjm := ptjl + sectors (pt_total ptj) in
+  let f_iso := map (map (fix_entry iso_lba files_lba)) b_iso in
+  let f_jol := map (map (fix_entry jol_lba files_lba)) b_jol in
+  let fsbuf := fsbuf_of ps3 volname game_code now rnd space (reloc_pt iso_lba pt) (reloc_pt jol_lba ptj) f_iso f_jol ptl ptm ptjl ptjm in
+  let files := concat (map (fun d => map (fun f => (di_path d ++ [df_name f], df_size f, df_lba f + files_lba)) (di_files d)) ds) in
+  {| bi_fsbuf := fsbuf; bi_files := files;
+     bi_pad_start := volume * sector_size; bi_pad_size := pad * sector_size; bi_total := space * sector_size |}.
 
 Definition build_image (root : snode) (volname : bytes) (ps3 : bool) (game_code now rnd : bytes) : res built_image :=
   match root with
@@ -312,40 +364,5 @@ Definition build_image (root : snode) (volname : bytes) (ps3 : bool) (game_code 
       let '(ds, files_sectors) := scan_loop (snode_count root) [([], root)] 0 in
       b_iso <- build_dirs ds false ds [] ;;
       b_jol <- build_dirs ds true ds [] ;;
-      let pt := make_path_table ds false ds b_iso 0 in
-      let ptj := make_path_table ds true ds b_jol 0 in
-      let iso_lba := sectors system_area_size + volume_descriptors_count + 1 + sectors (pt_total pt) * 2 + sectors (pt_total ptj) * 2 in
-      let jol_lba := iso_lba + sectors (built_size b_iso) in
-      let files_lba := jol_lba + sectors (built_size b_jol) in
-      let volume := files_lba + files_sectors in
-      let pad := base_pad_sectors + (if 0 <? volume mod base_pad_sectors then base_pad_sectors - volume mod base_pad_sectors else 0) in
-      let space := volume + pad in
-      let desc_lba := sectors system_area_size in
-      let ptl := desc_lba + volume_descriptors_count + 1 in
-      let ptm := ptl + sectors (pt_total pt) in
-      let ptjl := ptm + sectors (pt_total pt) in
-      let ptjm := ptjl + sectors (pt_total ptj) in
-      (* the root record inside the descriptors is encoded before fixLBA runs on ... no: descriptors keep a pointer,
-         encoding happens after relocation *)
-      let f_iso := map (map (fix_entry iso_lba files_lba)) b_iso in
-      let f_jol := map (map (fix_entry jol_lba files_lba)) b_jol in
-      let root_iso := match f_iso with (dot :: _) :: _ => de_encode dot | _ => [] end in
-      let root_jol := match f_jol with (dot :: _) :: _ => de_encode dot | _ => [] end in
-      let pt' := map (fun e => {| pt_loc := pt_loc e + iso_lba; pt_parent := pt_parent e; pt_id := pt_id e |}) pt in
-      let ptj' := map (fun e => {| pt_loc := pt_loc e + jol_lba; pt_parent := pt_parent e; pt_id := pt_id e |}) ptj in
-      let sysarea := if ps3 then ps3_sectors space game_code rnd ++ zeros ((sectors system_area_size - 2) * sector_size)
-                     else zeros system_area_size in
-      let fsbuf :=
-        sysarea
-        ++ vd_sector volume_type_primary 1 (vd_body false volname space (pt_total pt) ptl ptm root_iso now)
-        ++ vd_sector volume_type_supplementary 1 (vd_body true volname space (pt_total ptj) ptjl ptjm root_jol now)
-        ++ vd_sector volume_type_terminator 0 []
-        ++ zeros sector_size
-        ++ pad_sector (concat (map (pt_encode true) pt')) ++ pad_sector (concat (map (pt_encode false) pt'))
-        ++ pad_sector (concat (map (pt_encode true) ptj')) ++ pad_sector (concat (map (pt_encode false) ptj'))
-        ++ concat (map (fun es => pad_sector (entries_encode es 0)) f_iso)
-        ++ concat (map (fun es => pad_sector (entries_encode es 0)) f_jol) in
-      let files := concat (map (fun d => map (fun f => (di_path d ++ [df_name f], df_size f, df_lba f + files_lba)) (di_files d)) ds) in
-      Ok {| bi_fsbuf := fsbuf; bi_files := files;
-            bi_pad_start := volume * sector_size; bi_pad_size := pad * sector_size; bi_total := space * sector_size |}
+      Ok (assemble ds files_sectors b_iso b_jol volname ps3 game_code now rnd)
   end.
